@@ -62,3 +62,11 @@ inline const std::vector<std::pair<Bytes, Bytes>> &collision_pairs() {
     return pairs;
 }
 
+// After a walk step that failed under an injected allocation failure: a pointer the call stored in the caller's cursor must
+// be a live block. A freed copy left behind is a dangling pointer handed to the caller (who releases the copies of a
+// copying walk: freed twice) and, where the library reads the cursor again, garbage it feeds itself.
+static inline void check_cursor_ptr(Ctx &x, const char *what, const void *before, const void *after) {
+    if (after && after != before && !sim_ledger_has(after))
+        x.fail("dangling-cursor", x.o_enomem ? "enomem" : "mem", std::string("after a step that failed under an allocation fault the caller's cursor holds a freed pointer in ") + what);
+}
+
